@@ -575,6 +575,226 @@ Proof.
   - unfold step in H. destruct (nth_error (thr s) t) as [p|] eqn:Ep; try discriminate.
     destruct p; step_cases H; acc3_unfold; simpl in *; acc_norm_in Hc;
     try (acc_norm; eqb_cases; simpl in *; auto; try congruence; fail).
+    all: try (destruct (Nat.eqb r r') eqn:Q; [apply Nat.eqb_eq in Q; subst r'|auto]).
+    (* PUse: the runner was just seen not to be shut down *)
+    1,2: erewrite getf_some in Hc by eassumption; simpl in *; congruence.
+    (* CFR: the runner is held by the finishing request *)
+    1-3: exfalso;
+      assert (G : q_grant r1 = Some r /\ q_fin r1 = false) by
+        (pose proof (cnt_ge (tokf q) _ _ _ Ep) as Gt; simpl in Gt; unfold eqn in Gt; rewrite Nat.eqb_refl in Gt;
+         destruct (token_runner s IW I2 I q r1 Gt E0) as [F _]; split; auto;
+         destruct (l3_cfr s I _ _ _ _ Ep eq_refl) as [C|C];
+         [ unfold qgrant in C; erewrite getf_some in C by eassumption; exact C
+         | exfalso; opt_cases; pose proof (mu_free_no_lwok s IM q r r0 E ltac:(assumption)); lia ]);
+      destruct G as [G F];
+      pose proof (l3_ref s I r) as R; unfold rref, users in R;
+      rewrite (A r Hc) in R; apply (f_equal N.to_nat) in R; rewrite Nat2N.id in R; simpl in R;
+      pose proof (cnt_ge (usef r) _ _ _ E0) as Ge;
+      assert (U1 : usef r r1 = 1) by (unfold usef; rewrite G, F; unfold eqn; rewrite Nat.eqb_refl; reflexivity);
+      rewrite U1 in Ge; lia.
+    + (* CEV *)
+      apply (l3_cev s I _ _ _ Ep eq_refl).
+    + (* LWWait: the load goroutine's runner is not shut down *)
+      pose proof (l2_livepc s I2 _ _ _ Ep eq_refl) as L. unfold rclosed in L. erewrite getf_some in Hc, L by eassumption.
+      simpl in Hc. congruence.
+Qed.
+
+Lemma l3_cfr_step : forall t p q r, nth_error (thr s') t = Some p -> cfrpc p = Some (q, r) ->
+  qgrant s' q = Some r \/ 1 <= cnt (lwokrf q r) (thr s').
+Proof.
+  pose proof (l3_cfr s I) as A. fix_cfg c Hf. intros t' p' q' r' Hn Hp.
+  destruct l as [sp|q0|m|d|t alt].
+  - step_cases H; acc3_unfold; simpl in *; destruct (A _ _ _ _ Hn Hp) as [A1|A1]; auto; left;
+    rewrite getf_snoc; eqb_cases; auto; rewrite getf_none in A1 by lia; discriminate.
+  - step_cases H; acc3_unfold; simpl in *; destruct (A _ _ _ _ Hn Hp) as [A1|A1]; auto; left. acc_norm. auto.
+  - step_cases H; simpl in *. apply nth_error_snoc in Hn. destruct Hn as [Hn|[-> ->]]; [|discriminate Hp].
+    destruct (A _ _ _ _ Hn Hp) as [A1|A1]; auto. right. rewrite cnt_snoc. lia.
+  - step_cases H. apply tick_thr_cases in Hn. destruct Hn as [(p0 & Hn & ->)|(r & ->)]; [|discriminate Hp].
+    rewrite wake_cfrpc in Hp. unfold qgrant. rewrite tick_reqs, tick_thr, cnt_app, wake_cnt by (intros; apply wake_lwokrf).
+    destruct (A _ _ _ _ Hn Hp) as [A1|A1]; auto. right. lia.
+  - unfold step in H. destruct (nth_error (thr s) t) as [p|] eqn:Ep; try discriminate.
+    pose proof (cnt_ge (lwokrf q' r') _ _ _ Ep) as Ge.
+    destruct p; step_cases H; simpl in Hn; thr_cases Hn; simpl in Hp; try discriminate Hp;
+    try (match type of Hp with Some _ = Some _ => inv Hp end);
+    (* another thread is at CFR q' r' *)
+    try (destruct (A _ _ _ _ Hn Hp) as [A1|A1];
+         [ left; acc3_unfold; simpl in *; acc_norm; eqb_cases; auto
+         | right; simpl; repeat (erewrite (cnt_upd_eq (lwokrf q' r')) by (first [exact Ep | apply nth_error_snoc_old; exact Ep]));
+           rewrite ?cnt_snoc; simpl in *; lia ]; fail);
+    try (destruct (A _ _ _ _ Ep eq_refl) as [A1|A1];
+         [ left; acc3_unfold; simpl in *; acc_norm; eqb_cases; auto
+         | right; simpl; repeat (erewrite (cnt_upd_eq (lwokrf q' r')) by (first [exact Ep | apply nth_error_snoc_old; exact Ep]));
+           rewrite ?cnt_snoc; simpl in *; lia ]; fail);
+    try (destruct (A _ _ _ _ Ep Hp) as [A1|A1];
+         [ left; acc3_unfold; simpl in *; acc_norm; eqb_cases; auto
+         | right; simpl; repeat (erewrite (cnt_upd_eq (lwokrf q' r')) by (first [exact Ep | apply nth_error_snoc_old; exact Ep]));
+           rewrite ?cnt_snoc; simpl in *; lia ]; fail).
+    + (* PUseSend q r: nobody can be consuming a finish event of q *)
+      destruct (owner_nogrant s IW I q r1 _ _ Ep) as [G0 F0]; [simpl; unfold eqn; rewrite Nat.eqb_refl; reflexivity|exact E1|].
+      destruct (Nat.eq_dec q q') as [->|NE].
+      * exfalso. destruct (A _ _ _ _ Hn Hp) as [A1|A1].
+        -- unfold qgrant in A1. erewrite getf_some in A1 by eassumption. congruence.
+        -- pose proof (cnt_le_at (lwokf q') (ownf q') _ _ _ (lwokf_ownf q') Ep) as Le. simpl in Le.
+           unfold eqn in Le. rewrite Nat.eqb_refl in Le.
+           pose proof (cnt_mono (lwokrf q' r') (lwokf q') (thr s) (lwokrf_lwokf q' r')).
+           specialize (IW q'). unfold owned in IW. destruct (Nat.ltb q' (length (reqs s))); lia.
+      * destruct (A _ _ _ _ Hn Hp) as [A1|A1].
+        -- left. acc3_unfold; simpl in *; acc_norm. apply Nat.eqb_neq in NE. rewrite NE. auto.
+        -- right. simpl. repeat (erewrite (cnt_upd_eq (lwokrf q' r')) by (first [exact Ep | apply nth_error_snoc_old; exact Ep])).
+           rewrite ?cnt_snoc. simpl in *. lia.
+    + (* CFLk -> CFR: the registered runner is the one the request holds *)
+      pose proof (cnt_ge (tokf q') _ _ _ Ep) as Gt. simpl in Gt. unfold eqn in Gt. rewrite Nat.eqb_refl in Gt.
+      destruct (token_runner s IW I2 I q' r Gt E) as [_ (rr & L & D)]. rewrite E1 in L. inv L.
+      destruct D as [D|D].
+      * left. acc3_unfold; simpl in *. erewrite getf_some by eassumption. auto.
+      * right. simpl. erewrite (cnt_upd_eq (lwokrf q' rr)) by exact Ep. simpl. lia.
+    + (* LWOk q r delivers the runner *)
+      destruct (owner_nogrant s IW I q r1 _ _ Ep) as [G0 F0]; [simpl; unfold eqn; rewrite Nat.eqb_refl; reflexivity|eassumption|].
+      destruct (Nat.eq_dec q q') as [->|NE].
+      * destruct (A _ _ _ _ Hn Hp) as [A1|A1].
+        -- exfalso. unfold qgrant in A1. erewrite getf_some in A1 by eassumption. congruence.
+        -- left. pose proof (cnt_le_at (lwokrf q' r') (lwokf q') _ _ _ (lwokrf_lwokf q' r') Ep) as Le. simpl in Le.
+           pose proof (cnt_le_at (lwokf q') (ownf q') _ _ _ (lwokf_ownf q') Ep) as Le2. simpl in Le2.
+           unfold eqn in Le, Le2. rewrite Nat.eqb_refl in Le, Le2.
+           specialize (IW q'). unfold owned in IW.
+           assert (R : r = r').
+           { destruct (Nat.eqb r r') eqn:Q; [apply Nat.eqb_eq in Q; auto|]. exfalso.
+             destruct (Nat.ltb q' (length (reqs s))); lia. }
+           subst r'. acc3_unfold; simpl in *; acc_norm. rewrite Nat.eqb_refl. reflexivity.
+      * destruct (A _ _ _ _ Hn Hp) as [A1|A1].
+        -- left. acc3_unfold; simpl in *; acc_norm. apply Nat.eqb_neq in NE. rewrite NE. auto.
+        -- right. simpl. erewrite (cnt_upd_eq (lwokrf q' r')) by exact Ep. simpl in *.
+           unfold eqn in *. apply Nat.eqb_neq in NE. rewrite NE in *. simpl in *. lia.
+Qed.
+
+Lemma two_P' t1 t2 p1 p2 :
+  t1 <> t2 -> nth_error (thr s) t1 = Some p1 -> nth_error (thr s) t2 = Some p2 -> isP p1 = 1 -> isP p2 = 1 -> False.
+Proof. eapply two_P; eauto. Qed.
+
+Lemma l3_fresh_step : forall t p q r, nth_error (thr s') t = Some p -> freshpc p = Some (q, r) ->
+  users s' r = 0 /\ infl s' r = 1 /\ rref s' r = 1%N.
+Proof.
+  pose proof (l3_fresh s I) as A. fix_cfg c Hf. intros t' p' q' r' Hn Hp.
+  destruct l as [sp|q0|m|d|t alt].
+  - step_cases H; acc3_unfold; simpl in *; destruct (A _ _ _ _ Hn Hp) as (U & F & R); rewrite ?cnt_snoc; unfold usef at 2; simpl; auto with arith;
+    repeat split; auto; lia.
+  - step_cases H; acc3_unfold; simpl in *; destruct (A _ _ _ _ Hn Hp) as (U & F & R); repeat split; auto.
+    pose proof (cnt_ge (usef r') _ _ _ E) as Ge. erewrite (cnt_upd_eq (usef r')) by eassumption.
+    assert (usef r' (q_cancel r) = usef r' r) by reflexivity. lia.
+  - step_cases H; simpl in *. apply nth_error_snoc in Hn. destruct Hn as [Hn|[-> ->]]; [|discriminate Hp].
+    destruct (A _ _ _ _ Hn Hp) as (U & F & R). acc3_unfold; simpl in *. rewrite cnt_snoc. simpl. repeat split; auto; lia.
+  - step_cases H. apply tick_thr_cases in Hn. destruct Hn as [(p0 & Hn & ->)|(r & ->)]; [|discriminate Hp].
+    rewrite wake_freshpc in Hp. destruct (A _ _ _ _ Hn Hp) as (U & F & R).
+    unfold users, infl in *. rewrite tick_rref, tick_reqs, tick_thr, cnt_app, (fire_pcs_zero (inflf r')), wake_cnt;
+      auto using wake_inflf. repeat split; auto; lia.
+  - unfold step in H. destruct (nth_error (thr s) t) as [p|] eqn:Ep; try discriminate.
+    destruct p; step_cases H; simpl in Hn; thr_cases Hn; simpl in Hp; try discriminate Hp;
+    try (match type of Hp with Some _ = Some _ => inv Hp end);
+    (* another thread (the pending loop) is registering r' *)
+    try (destruct (A _ _ _ _ Hn Hp) as (U & F & R);
+         match goal with Hne : _ <> _ |- _ => pose proof (cnt_two (inflf r') _ _ _ _ _ Hne Hn Ep) as Two end;
+         rewrite (freshpc_inflf _ _ _ Hp) in Two; simpl in Two;
+         acc3_unfold; simpl in *;
+         repeat match goal with E : nth_error (reqs s) _ = Some _ |- _ => pose proof (cnt_ge (usef r') _ _ _ E); revert E end; intros;
+         acc_norm; ref_sums r' Ep; unfold usef in *; simpl in *; unfold eqn in *;
+         repeat split; eqb_cases; simpl in *; try lia; auto; fail);
+    (* the pending loop stays at a fresh program point *)
+    try (destruct (A _ _ _ _ Ep eq_refl) as (U & F & R); acc3_unfold; simpl in *; acc_norm; ref_sums r' Ep; simpl;
+         unfold eqn; rewrite ?Nat.eqb_refl; repeat split; auto; lia);
+    try (destruct (A _ _ _ _ Ep Hp) as (U & F & R); acc3_unfold; simpl in *; repeat split; auto; fail);
+    (* the thread list is unchanged *)
+    try (destruct (A _ _ _ _ Hn Hp) as (U & F & R); acc3_unfold; simpl in *; repeat split; auto; fail);
+    (* the stepping thread is the pending loop, so no other thread is *)
+    try (exfalso; eapply (two_P' t' t); eauto using freshpc_isP; reflexivity).
+    (* PNs: the runner is created with refCount 1; nothing referred to its index before *)
+    1,2: pose proof (l3_ref s I (length (runners s))) as R0; unfold rref, users, infl in R0;
+      rewrite getf_none in R0 by lia; apply (f_equal N.to_nat) in R0; rewrite Nat2N.id in R0; simpl in R0;
+      acc3_unfold; simpl; rewrite getf_snoc, Nat.eqb_refl; erewrite (cnt_upd_eq (inflf (length (runners s)))) by exact Ep;
+      simpl; unfold eqn; rewrite Nat.eqb_refl; repeat split; try reflexivity; lia.
+    (* CFR while the pending loop registers a runner: the finishing request holds a registered runner, not that one *)
+    all: unfold getr, getq in *.
+    all: try (match goal with
+      | Ep : nth_error (thr s) _ = Some (CFR ?q ?r), E : nth_error (runners s) ?r = Some ?r0,
+        E0 : nth_error (reqs s) ?q = Some ?r1 |- _ =>
+        assert (G : q_grant r1 = Some r /\ q_fin r1 = false) by
+          (pose proof (cnt_ge (tokf q) _ _ _ Ep) as Gt; simpl in Gt; unfold eqn in Gt; rewrite Nat.eqb_refl in Gt;
+           destruct (token_runner s IW I2 I q r1 Gt E0) as [F _]; split; auto;
+           destruct (l3_cfr s I _ _ _ _ Ep eq_refl) as [C|C];
+           [ unfold qgrant in C; erewrite getf_some in C by eassumption; exact C
+           | exfalso; opt_cases; match goal with EN : r_mu r0 = None |- _ => pose proof (mu_free_no_lwok s IM q r r0 E EN) end; lia ]);
+        destruct G as [G F0]; destruct (A _ _ _ _ Hn Hp) as (U & F & R);
+        acc3_unfold; simpl in *; pose proof (cnt_ge (usef r') _ _ _ E0) as Ge;
+        acc_norm; ref_sums r' Ep; unfold usef in *; simpl in *; rewrite G, F0 in *; unfold eqn in *;
+        (destruct (Nat.eqb r r') eqn:Q; [exfalso; lia | repeat split; auto; lia])
+      end).
+    + (* LWOk q r while the pending loop registers another runner *)
+      destruct (A _ _ _ _ Hn Hp) as (U & F & R).
+      match goal with Hne : _ <> _ |- _ => pose proof (cnt_two (inflf r') _ _ _ _ _ Hne Hn Ep) as Two end.
+      rewrite (freshpc_inflf _ _ _ Hp) in Two. simpl in Two. unfold eqn in Two.
+      unfold infl in F. destruct (Nat.eqb r r') eqn:Q; [lia|].
+      destruct (owner_nogrant s IW I q r1 _ _ Ep) as [G0 F0]; [simpl; unfold eqn; rewrite Nat.eqb_refl; reflexivity|eassumption|].
+      acc3_unfold; simpl in *.
+      match goal with E0 : nth_error (reqs s) q = Some r1 |- _ => pose proof (cnt_ge (usef r') _ _ _ E0) as Ge end.
+      acc_norm; ref_sums r' Ep; unfold usef in *; simpl in *; rewrite G0, F0 in *; unfold eqn in *; rewrite Q in *.
+      repeat split; auto; lia.
+    + destruct (A _ _ _ _ Ep Hp) as (U & F & R). acc3_unfold; simpl in *.
+      erewrite (cnt_upd_eq (inflf r')) by exact Ep. simpl. pose proof (cnt_ge (inflf r') _ _ _ Ep) as Ge. simpl in Ge.
+      repeat split; auto; lia.
+
 Qed.
 
 End Step.
+
+Lemma L3_step c s l s' e :
+  fixed c -> I_own s -> I_muc s -> I_lmuc s -> I_one s -> L2 s -> L3 s -> step c s l = Some (s', e) -> L3 s'.
+Proof.
+  intros. constructor.
+  - eapply l3_ref_step; eauto.
+  - eapply l3_tok_step; eauto.
+  - eapply l3_grant_step; eauto.
+  - eapply l3_cev_step; eauto.
+  - eapply l3_closed_step; eauto.
+  - eapply l3_canpc_step; eauto.
+  - eapply l3_finq_step; eauto.
+  - eapply l3_cfr_step; eauto.
+  - eapply l3_lw_step; eauto.
+  - eapply l3_pm_step; eauto.
+  - eapply l3_fresh_step; eauto.
+Qed.
+
+Lemma L3_init m : L3 (init_m m).
+Proof.
+  constructor; simpl; intros;
+  try (destruct t as [|[|[|t]]]; simpl in *; try discriminate; inv H; simpl in *; discriminate).
+  - unfold rref, users, infl, getf. simpl. destruct r; reflexivity.
+  - unfold occ, getd. simpl. destruct q; reflexivity.
+  - unfold getq in H. destruct q; discriminate.
+  - unfold rref, getf. simpl. destruct r; reflexivity.
+  - tauto.
+Qed.
+
+Lemma L3_Reach c s ev : fixed c -> Reach c s ev -> L3 s.
+Proof.
+  intros Hf R. induction R as [m|s ev l s' e R IH Hs].
+  - apply L3_init.
+  - destruct (I_locks_Reach _ _ _ Hf R) as (A & B & C). eapply L3_step; eauto.
+    + eapply I_own_Reach; eauto.
+    + eapply L2_Reach; eauto.
+Qed.
+
+(* C01, first clause: a runner held by a request that has not been cancelled is not shut down *)
+Lemma no_close_in_use c s ev q x r y :
+  fixed c -> Reach c s ev ->
+  getq s q = Some x -> q_grant x = Some r -> q_cancelled x = false -> getr s r = Some y -> r_closed y = false.
+Proof.
+  intros Hf R Eq G Cn Er. pose proof (L3_Reach _ _ _ Hf R) as I.
+  destruct (r_closed y) eqn:Cl; auto. exfalso.
+  assert (RC : rclosed s r = true) by (rewrite (rclosed_get _ _ _ Er); auto).
+  pose proof (l3_closed s I r RC) as Z. pose proof (l3_ref s I r) as Rf. rewrite Z in Rf.
+  apply (f_equal N.to_nat) in Rf. rewrite Nat2N.id in Rf. simpl in Rf.
+  destruct (l3_grant s I q x Eq) as [_ G2].
+  assert (F : q_fin x = false) by (destruct (q_fin x); auto; destruct (G2 eq_refl); congruence).
+  unfold users, getq in *. pose proof (cnt_ge (usef r) _ _ _ Eq) as Ge.
+  assert (U1 : usef r x = 1) by (unfold usef; rewrite G, F; unfold eqn; rewrite Nat.eqb_refl; reflexivity).
+  lia.
+Qed.
